@@ -61,7 +61,9 @@ class Regions:
 
     # ---- stores into each alloca by constant offset (None = unknown offset), incl. out-parameters of container iterators
     def _alloca_base(self, fn, o, depth=0):
-        """operand -> (alloca id, constant offset or None)"""
+        """operand -> (alloca id, constant offset or None); the sret result slot of a struct-returning function counts as a local"""
+        if o.get("k") == "arg" and o["i"] < len(fn.params) and "sret" in fn.params[o["i"]]:
+            return ("sret%d" % o["i"], 0)
         if o.get("k") != "inst" or depth > 8:
             return None
         i = fn.insts[o["id"]]
@@ -83,7 +85,7 @@ class Regions:
         if m is None:
             m = defaultdict(list)
             for i in fn.all_insts():
-                if i.op == "store" and i["ptr"].get("k") == "inst":
+                if i.op == "store" and i["ptr"].get("k") in ("inst", "arg"):
                     b = self._alloca_base(fn, i["ptr"])
                     if b is not None:
                         m[b[0]].append((b[1], i["size"], "val", i["val"]))
@@ -118,6 +120,8 @@ class Regions:
         if k in ("const", "null", "undef", "func", "fconst", "zero"):
             return set()
         if k == "arg":
+            if o["i"] < len(fn.params) and "sret" in fn.params[o["i"]]:
+                return {("local", fn.name, "sret%d" % o["i"], 0)}
             return self.arg_roots(ck, fn, o["i"])
         if k != "inst":
             return {("unk",)}
@@ -317,6 +321,38 @@ class Regions:
             return (b or "?") + "{}"
         return None
 
+    def label_of(self, ck, fn, o, depth=0):
+        """field label of a pointer operand; a pointer parameter takes the label of the arguments passed by the call
+        sites that produced this context (when they agree)"""
+        l = self.field_of(fn, o)
+        if l is not None or depth > 5:
+            return l
+        k = None
+        if o.get("k") == "arg":
+            k = o["i"]
+        else:
+            i = fn.resolve(o) if o.get("k") == "inst" else None
+            while i is not None and i.op in ("bitcast",):
+                i = fn.resolve(i["a"])
+            if i is not None and i.op == "load" and i["ptr"].get("k") == "inst":
+                a = fn.insts[i["ptr"]["id"]]
+                if a.op == "alloca":
+                    k = fn.param_index_of_alloca(a)
+            elif i is not None and i.op == "getelementptr" and not self.field_of(fn, o):
+                inner = self.label_of(ck, fn, i["base"], depth + 1)
+                if inner is not None:
+                    return inner if inner.endswith("[]") else inner + "[]"
+        if k is None:
+            return None
+        labels = set()
+        for (pk, inst) in self.parents.get(ck, ()):
+            pf = self.E.ctxs[pk].fn
+            if inst.callee == fn.name and k < len(inst.args):
+                labels.add(self.label_of(pk, pf, inst.args[k], depth + 1))
+        if len(labels) == 1:
+            return labels.pop()
+        return None
+
     def top_field(self, gname, off):
         """name of the member of global struct `gname` at byte offset off (for bidib_track_state.*)"""
         g = self.P.globals.get(gname)
@@ -338,18 +374,18 @@ class Regions:
             if i.op == "load":
                 rs = self._shared(self.roots(ck, fn, i["ptr"]))
                 if rs:
-                    yield i, "r", rs, self.field_of(fn, i["ptr"]), "load"
+                    yield i, "r", rs, self.label_of(ck, fn, i["ptr"]), "load"
             elif i.op == "store":
                 rs = self._shared(self.roots(ck, fn, i["ptr"]))
                 if rs:
-                    yield i, "w", rs, self.field_of(fn, i["ptr"]), "store"
+                    yield i, "w", rs, self.label_of(ck, fn, i["ptr"]), "store"
             elif i.op == "call" and i.callee is None and not self.children.get((ck, i.id)):
                 # call through a function pointer that is not a repo function (user callback): it reads what it is handed
                 for k, a in enumerate(i.args):
                     if a.get("k") in ("inst", "global", "arg"):
                         rs = self._shared(self.roots(ck, fn, a))
                         if rs:
-                            yield i, "r", rs, self.field_of(fn, a), "callback arg%d" % k
+                            yield i, "r", rs, self.label_of(ck, fn, a), "callback arg%d" % k
             elif i.op == "call" and i.callee and not (i.callee in self.P.functions and self.P.functions[i.callee].blocks):
                 c = i.callee
                 if c.startswith("llvm.dbg") or c.startswith("llvm.lifetime") or c.startswith("pthread_"):
@@ -368,7 +404,7 @@ class Regions:
                         mode = "r"
                     else:
                         mode = "w"
-                    yield i, mode, rs, self.field_of(fn, a), "call %s arg%d" % (c, k)
+                    yield i, mode, rs, self.label_of(ck, fn, a), "call %s arg%d" % (c, k)
 
     @staticmethod
     def _shared(rs):
